@@ -285,7 +285,7 @@ def sub_hz(ctx, shard, n):
     std = st.sampled_from(STANDARD_PITCHES) | st.floats(300.0, 500.0)
     cents = st.floats(-40.0, 40.0) | st.sampled_from([-40.0, 40.0, -39.999, 39.999, 0.0])
     strat = st.tuples(st.integers(0, 127), std, cents).map(list)
-    ctx.given("hz", check_hz, strat, 1500 if ctx.quick else 4000)
+    ctx.given("hz", check_hz, strat, 1500 if ctx.quick else 15000)
 
 
 NEAR = ["c", "H", " C", "C ", "#C", "bC", "C♯", "C#x", "C4", "Cb4", "c#", "Bb\n", "C\n", "E#b ", "Ab1", "I", "Cis", "CC", "C#C",
